@@ -1272,7 +1272,7 @@ func ruleQTravel(c *Ctx, rule string, targets [][2]string) {
 		_, hasL := fields["L"]
 		_, hasQ := fields["Q"]
 		switch {
-		case hasL && !hasQ:
+		case hasL && !hasQ && !whole:
 			c.bad(rule, key, fields["L"], "the letters of the elements are rewritten field by field but their quality scores are never stored: after the reversal each letter carries the quality of the letter that used to be at its new position")
 		case hasL || whole:
 			c.ok(rule, key, fn.Pos(), "quality scores are stored together with the letters (field-wise or as whole elements)")
@@ -1917,6 +1917,7 @@ func ruleSignRound(c *Ctx, rule string) {
 				c.Funcs[funcName(f)] = true
 				key := fmt.Sprintf("%s/float-to-Qsolexa#%d", funcName(f), n)
 				plus, minus, round := false, false, false
+				var halves []*ssa.BinOp
 				seen := map[ssa.Value]bool{}
 				var walk func(v ssa.Value, d int)
 				walk = func(v ssa.Value, d int) {
@@ -1933,12 +1934,20 @@ func ruleSignRound(c *Ctx, rule string) {
 						if k, ok := x.Y.(*ssa.Const); ok && k.Value != nil && k.Value.ExactString() == "1/2" {
 							if x.Op == token.ADD {
 								plus = true
+								halves = append(halves, x)
 							}
 							if x.Op == token.SUB {
 								minus = true
+								halves = append(halves, x)
 							}
 						}
 					case *ssa.Call:
+						// a helper of the module that does the rounding: what it returns
+						if g := x.Call.StaticCallee(); g != nil && inModule(g) && g.Blocks != nil && g.Signature.Results().Len() == 1 {
+							for _, r := range returnsOf(g) {
+								walk(r.Results[0], d+1)
+							}
+						}
 						if g := x.Call.StaticCallee(); g != nil && g.Pkg != nil && g.Pkg.Pkg.Path() == "math" {
 							switch g.Name() {
 							case "Round", "RoundToEven":
@@ -1960,38 +1969,13 @@ func ruleSignRound(c *Ctx, rule string) {
 				// when the half is chosen by a test, the test must be on the sign of the value being rounded
 				wrongTest := ""
 				if plus && minus && !round {
-					// the phi that joins value+0.5 and value-0.5
-					var halfPhi *ssa.Phi
-					for v := range seen {
-						if phi, ok := v.(*ssa.Phi); ok {
-							halves := 0
-							for _, e := range phi.Edges {
-								if bo, ok := e.(*ssa.BinOp); ok {
-									if k, ok := bo.Y.(*ssa.Const); ok && k.Value != nil && k.Value.ExactString() == "1/2" {
-										halves++
-									}
+					for _, h := range halves {
+						for d := h.Block().Idom(); d != nil; d = d.Idom() {
+							if ifi, ok := d.Instrs[len(d.Instrs)-1].(*ssa.If); ok {
+								if bo, ok := ifi.Cond.(*ssa.BinOp); ok && bo.X != h.X && bo.Y != h.X {
+									wrongTest = symName(bo.X, nil)
 								}
-							}
-							if halves == 2 && len(phi.Edges) == 2 {
-								halfPhi = phi
-							}
-						}
-					}
-					if phi := halfPhi; phi != nil {
-						var val ssa.Value
-						for _, e := range phi.Edges {
-							if bo, ok := e.(*ssa.BinOp); ok {
-								val = bo.X
-							}
-						}
-						for _, p := range phi.Block().Preds {
-							for d := p; d != nil; d = d.Idom() {
-								if ifi, ok := d.Instrs[len(d.Instrs)-1].(*ssa.If); ok {
-									if bo, ok := ifi.Cond.(*ssa.BinOp); ok && val != nil && bo.X != val && bo.Y != val {
-										wrongTest = symName(bo.X, nil)
-									}
-									break
-								}
+								break
 							}
 						}
 					}
